@@ -1,0 +1,46 @@
+//go:build verif
+
+package ch
+
+// Machine-checked contracts for package ch (comment-only; read by /verif/govc).
+
+//@ import proto github.com/ClickHouse/ch-go/proto
+//@ import net net
+
+//@ valid (c *Client): c != nil ==> c.conn != nil && c.lg != nil
+
+// ---------------------------------------------------------------------------
+// C04 / C10: closing, flushing a private buffer, cancelling
+
+//@ contract (c *Client) Close() (err) props(C04,C10,C11)
+//@   requires c != nil
+//@   modifies c.closed, c.mux, c.conn.closed, c.conn.closes
+//@   ensures c.closed {closed-after}
+//@   ensures old(c.closed) ==> err != nil && c.conn.closes == old(c.conn.closes) {closed-client-does-not-touch-conn}
+//@   ensures !old(c.closed) ==> c.conn.closed && c.conn.closes == old(c.conn.closes) + 1 {closes-conn-once}
+
+//@ contract (c *Client) IsClosed() (r) props(C04,C10,C11)
+//@   requires c != nil
+//@   modifies c.mux
+//@   ensures r == c.closed
+
+//@ -- flushBuf writes b to the connection (or nothing) and always empties b
+//@ contract (c *Client) flushBuf(ctx, b) (err) props(C02,C04,C10)
+//@   requires c != nil && b != nil && ctx != nil
+//@   modifies b.Buf, c.conn.out, c.conn.olen
+//@   ensures len(b.Buf) == 0 {buffer-reset}
+//@   ensures err == nil ==> c.conn.olen == old(c.conn.olen) + old(len(b.Buf)) {all-written}
+//@   ensures old(c.conn.olen) <= c.conn.olen && c.conn.olen <= old(c.conn.olen) + old(len(b.Buf)) {at-most-buffer}
+//@   ensures forall k in 0..c.conn.olen - old(c.conn.olen) :: c.conn.out[old(c.conn.olen) + k] == old(b.Buf[k]) {prefix-of-buffer}
+//@   ensures forall k in 0..old(c.conn.olen) :: c.conn.out[k] == old(c.conn.out[k]) {earlier-output-untouched}
+
+//@ -- cancelQuery writes exactly the one-byte Cancel packet (best effort) and always closes
+//@ contract (c *Client) cancelQuery() (err) props(C04,C10)
+//@   requires c != nil
+//@   modifies c.closed, c.mux, c.conn.closed, c.conn.closes, c.conn.out, c.conn.olen
+//@   ensures c.closed {always-closes}
+//@   ensures !old(c.closed) ==> c.conn.closed {conn-closed}
+//@   ensures c.conn.olen <= old(c.conn.olen) + 1 {at-most-one-byte}
+//@   ensures c.conn.olen > old(c.conn.olen) ==> c.conn.out[old(c.conn.olen)] == proto.ClientCodeCancel {cancel-code}
+//@   ensures err == nil ==> c.conn.olen == old(c.conn.olen) + 1 {cancel-sent}
+//@   ensures forall k in 0..old(c.conn.olen) :: c.conn.out[k] == old(c.conn.out[k]) {earlier-output-untouched}
